@@ -295,6 +295,20 @@ Proof.
   split; [vm_compute; reflexivity|]. split; [reflexivity|]. vm_compute. discriminate.
 Qed.
 
+(* the same with any post-decode validation that accepts the value *)
+Theorem deserialize_serialize_post : forall t v post, wt t v = true -> post v = true ->
+  deserialize (decode t) post (serialize (encode v)) = DOk v (length (serialize (encode v))).
+Proof.
+  intros t v post W P. rewrite <- (app_nil_r (serialize (encode v))) at 1.
+  apply deserialize_accepts; [|assumption]. apply universe_roundtrip. assumption.
+Qed.
+
+Theorem serialized_prefix_rejected_post : forall t v post k, wt t v = true -> post v = true ->
+  k < length (serialize (encode v)) ->
+  deserialize (decode t) post (firstn k (serialize (encode v))) =
+  DErr (if Nat.ltb k data_offset then InvalidFormat else DecodeError Eof).
+Proof. intros t v post k W P Hk. exact (short_rejected _ _ _ _ _ _ (deserialize_serialize_post t v post W P) k Hk). Qed.
+
 (* every strict prefix of a serialized value is rejected (header + payload) *)
 Corollary serialized_prefix_rejected : forall t v k, wt t v = true -> k < length (serialize (encode v)) ->
   deserialize (decode t) (fun _ => true) (firstn k (serialize (encode v))) =
@@ -330,7 +344,7 @@ Qed.
 Lemma firstn_upd : forall A n i (x : A) l, firstn n (upd i x l) = upd i x (firstn n l).
 Proof.
   induction n; intros i x l; [destruct l; destruct i; reflexivity|].
-  destruct l; [reflexivity|]. destruct i; cbn [upd firstn]; [reflexivity|]. f_equal. apply IHn.
+  destruct l; [destruct i; reflexivity|]. destruct i; cbn [upd firstn]; [reflexivity|]. f_equal. apply IHn.
 Qed.
 
 Theorem header_alteration_rejected : forall A (d : dec A) post body i b,
@@ -355,13 +369,17 @@ Qed.
    in the source today a blob whose largest atom SubPatternId EQUALS
    sub_patterns.len() passes the check, and that id is out of bounds for
    get_unchecked.  [n] = sub_patterns.len(), [m] = largest id. *)
-Lemma subpattern_bound_check_gap :
+Lemma subpattern_bound_check_gap : de_subpattern_bound_cmp = CLt ->
   exists n m, subpattern_bound_reject n m = false /\ ~ (m < n)%N.
-Proof. exists 1%N, 1%N. split; [vm_compute; reflexivity|lia]. Qed.
-(* what the check does guarantee *)
-Lemma subpattern_bound_check_guarantee : forall n m, subpattern_bound_reject n m = false -> (m <= n)%N.
+Proof.
+  intros E. exists 1%N, 1%N. unfold subpattern_bound_reject. rewrite E. split; [reflexivity|lia].
+Qed.
+(* what the check guarantees, for the comparison in use *)
+Lemma subpattern_bound_check_guarantee : forall n m, subpattern_bound_reject n m = false ->
+  match de_subpattern_bound_cmp with CLt => (m <= n)%N | CLe => (m < n)%N | _ => True end.
 Proof.
   intros n m H. unfold subpattern_bound_reject in H.
-  assert (E : de_subpattern_bound_cmp = CLt) by reflexivity. rewrite E in H. cbn [cmp_N] in H.
-  apply N.ltb_ge in H. assumption.
+  destruct de_subpattern_bound_cmp; cbn [cmp_N] in H; try exact I.
+  - apply N.ltb_ge in H. assumption.
+  - apply N.leb_gt in H. assumption.
 Qed.
